@@ -73,7 +73,14 @@ G("from_stream", impl=r"impl PDU", props=["C06"], keys=True,
            ("C06", "demand-active-layout", "r is Ok && r->Ok_0.pdu_type is PdutypeDemandactivepdu ==> demand_active_fields(r->Ok_0.message.fields())")],
   hints=[(r"header\.read\(stream\)\?;", 1, "let ghost m0 = header.mv();", "before"),
          (r"header\.read\(stream\)\?;", 1, "proof { lemma_read_keeps_layout(m0, header.mv()); }")])
-G("from_control", impl=r"impl PDU", props=["C06"], keys=True,
+# refusal-justification claims on match arms `_ => return Err(..)`: the claim opens a block around the arm expression (on a line of its own, so that a
+# failure is attributed to it) and the LAST hint of the function closes it
+NOT_IMPL_PDU = r'return Err\(Error::RdpError\(RdpError::new\(RdpErrorKind::NotImplemented, "GLOBAL: PDU not implemented"\)\)\)'
+NOT_IMPL_ANY = r'return Err\(Error::RdpError\(RdpError::new\(RdpErrorKind::NotImplemented,[^\n]*\)\)\)'
+G("from_control", impl=r"impl PDU", props=["C06", "C12"], keys=True,
+  # MS-RDPBCGR 2.2.8.1.1.1.1 pduType: a share control PDU is refused as not implemented only when its type is none of Demand Active 0x11,
+  # Confirm Active 0x13, Deactivate All 0x16, Data 0x17 (e.g. the Server Redirection packet 0x1A)
+  claims=[(NOT_IMPL_PDU, 1, "{\nproof { let v = wire_pdu_type(control.fields()); assert(v is Some && v->Some_0 != 0x11 && v->Some_0 != 0x13 && v->Some_0 != 0x16 && v->Some_0 != 0x17); }", "at", "C12,C06", "not-implemented-only-for-other-than-the-four-parsed-kinds")],
   requires=["has_key(control.fields(), \"pduType\"@)", "has_key(control.fields(), \"pduMessage\"@)"],
   ensures=[("C06", "known-kinds-only", "r is Ok ==> (r->Ok_0.pdu_type is PdutypeDemandactivepdu || r->Ok_0.pdu_type is PdutypeDatapdu || r->Ok_0.pdu_type is PdutypeConfirmactivepdu || r->Ok_0.pdu_type is PdutypeDeactivateallpdu)"),
            ("C06", "data-layout", "r is Ok && r->Ok_0.pdu_type is PdutypeDatapdu ==> share_data_fields(r->Ok_0.message.fields())"),
@@ -86,15 +93,23 @@ G("from_control", impl=r"impl PDU", props=["C06"], keys=True,
         let elems = pdu.message.fields()[6].1->Arr_0;
         assert forall|i: int| 0 <= i < elems.len() implies (#[trigger] elems[i]) is Comp && capability_set_fields(elems[i]->Comp_0) by {
             lemma_read_keeps_layout(capability::capability_set_view(1, Seq::empty()), elems[i]);
-        } }"""))
-G("from_pdu", impl=r"impl DataPDU", props=["C06"], keys=True,
+        } }""") + [(NOT_IMPL_PDU, 1, "}", "atend")])
+G("from_pdu", impl=r"impl DataPDU", props=["C06", "C12"], keys=True,
+  # MS-RDPBCGR 2.2.8.1.1.1.2 pduType2: a data PDU is refused as not implemented only when its type is none of Synchronize 0x1F, Control 0x14,
+  # Font List 0x27, Font Map 0x28, Set Error Info 0x2F
+  claims=[(NOT_IMPL_ANY, 1, """{\nproof { let h = fld(data_pdu.message.fields(), "pduType2"@);
+            assert(exists|v: u8| #[trigger] dt_matches(DataType::U8(v), h) && v != 0x1F && v != 0x14 && v != 0x27 && v != 0x28 && v != 0x2F); }""", "at", "C12,C06", "not-implemented-only-for-other-than-the-five-parsed-kinds")],
   requires=["has_key(data_pdu.message.fields(), \"pduType2\"@)", "has_key(data_pdu.message.fields(), \"payload\"@)"],
   ensures=[("C06", "known-kinds-only", "r is Ok ==> (r->Ok_0.pdu_type is Pdutype2Synchronize || r->Ok_0.pdu_type is Pdutype2Control || r->Ok_0.pdu_type is Pdutype2Fontlist || r->Ok_0.pdu_type is Pdutype2Fontmap || r->Ok_0.pdu_type is Pdutype2SetErrorInfoPdu)"),
            ("C06", "control-layout", "r is Ok && r->Ok_0.pdu_type is Pdutype2Control ==> control_fields(r->Ok_0.message.fields())"),
            ("C06", "error-info-layout", "r is Ok && r->Ok_0.pdu_type is Pdutype2SetErrorInfoPdu ==> error_info_fields(r->Ok_0.message.fields())")],
-  hints=keep("result"))
+  hints=keep("result") + [(NOT_IMPL_ANY, 1, "}", "atend")])
 G("from_fp", impl=r"impl FastPathUpdate", props=["C06", "C10"], keys=True, attrs=["#[verifier::rlimit(60)]"],
   requires=["has_key(fast_path.fields(), \"updateHeader\"@)", "has_key(fast_path.fields(), \"updateData\"@)"],
+  # MS-RDPBCGR 2.2.9.1.2.1 updateCode (low nibble of updateHeader): an update is refused as not implemented only when its code is none of
+  # FASTPATH_UPDATETYPE_BITMAP 0x1, SYNCHRONIZE 0x3, PTR_NULL 0x5, COLOR 0x9 (orders 0x0, palette 0x2, surface commands 0x4 ... are not parsed by this client)
+  claims=[(NOT_IMPL_ANY, 1, """{\nproof { let f = fast_path.fields(); let h = f[first_key(f, "updateHeader"@)].1;
+            assert(exists|v: u8| #[trigger] dt_matches(DataType::U8(v), h) && v & 0xf != 0x1 && v & 0xf != 0x3 && v & 0xf != 0x5 && v & 0xf != 0x9); }""", "at", "C10,C06", "not-implemented-only-for-codes-other-than-bitmap-synchronize-ptrnull-color")],
   ensures=[("C06,C10", "bitmap-layout", "r is Ok && r->Ok_0.fp_type is FastpathUpdatetypeBitmap ==> fp_bitmap_fields(r->Ok_0.message.fields())"),
            # MS-RDPBCGR 2.2.9.1.2.1: updateCode is the low 4 bits of updateHeader (the kind that is dispatched on is exactly that code)
            ("C10,C06", "update-code-is-the-low-nibble", """r is Ok ==> ({ let f = fast_path.fields(); let h = f[first_key(f, "updateHeader"@)].1;
@@ -108,7 +123,8 @@ G("from_fp", impl=r"impl FastPathUpdate", props=["C06", "C10"], keys=True, attrs
         } }""") + [
       (r"let fp_update_type = ", 1, """proof { let f = fast_path.fields(); let h = f[first_key(f, "updateHeader"@)].1;
             assert(exists|v: u8| #[trigger] dt_matches(DataType::U8(v), h) && FastPathUpdateType::from_repr(v & 0xf) == Some(fp_update_type)); }"""),
-      (r"\.message\.read\(&mut Cursor::new", 1, "proof { assert(result.fp_type == fp_update_type); }", "before")])
+      (r"\.message\.read\(&mut Cursor::new", 1, "proof { assert(result.fp_type == fp_update_type); }", "before"),
+      (NOT_IMPL_ANY, 1, "}", "atend")])
 
 # ---- client
 G("new", impl=r"impl Client", props=["C12"],
@@ -133,7 +149,10 @@ G("read_control_pdu", impl=r"impl Client", props=["C06", "C12", "C03"], keys=Tru
   # C12 "advance only on the expected PDU": a control PDU is accepted (Ok(true)) only when its action field is the expected action
   claims=[(r"(?:return )?Ok\(true\)", 0, "proof { assert(pdu.pdu_type is PdutypeDatapdu); }", "before", "C12,C03", "expected-pdu-reported-only-for-a-data-pdu"),
           (r"Ok\(true\)\s*\}\s*$", 1, """proof { let f = data_pdu.message.fields(); let a = f[first_key(f, "action"@)].1;
-            assert(a is U16 && a->U16_0 == action as u16); }""", "before", "C12,C03", "control-accepted-only-with-the-expected-action")])
+            assert(a is U16 && a->U16_0 == action as u16); }""", "before", "C12,C03", "control-accepted-only-with-the-expected-action"),
+          # refusal justification: a control PDU is refused as a bad message only when its action field is NOT the expected action
+          (r"return Err\(.*GLOBAL: bad message type", 1, """proof { let f = data_pdu.message.fields(); let a = f[first_key(f, "action"@)].1;
+            assert(pdu.pdu_type is PdutypeDatapdu && data_pdu.pdu_type is Pdutype2Control && a is U16 && a->U16_0 != action as u16); }""", "before", "C12,C03", "control-refused-only-with-another-action")])
 G("read_font_map_pdu", impl=r"impl Client", props=["C06", "C12", "C03"], keys=True, ensures=STATE_FRAME + [(None, "share", "final(self).share() == old(self).share()")],
   claims=[(r"(?:return )?Ok\(true\)", 0, "proof { assert(pdu.pdu_type is PdutypeDatapdu); }", "before", "C12,C03", "expected-pdu-reported-only-for-a-data-pdu")])
 # rule R6: Verus' for-loops do not support `continue`: the loop over the parsed PDUs is spelled as an index loop (increment first, same order, same elements)
